@@ -23,7 +23,7 @@ BASE_ASSUMPTIONS = [
 def run_family(ctx, oracle, sig, model_compare=None, genkws=({}, {"max_depth": 4}), n_quick=3000, n_thorough=90000,
                nontrivial=None, extra=None, rule=""):
     thorough = ctx["tier"] == "thorough"
-    n = n_thorough if thorough else n_quick
+    n = n_thorough if thorough else n_quick * ctx.get('scale', 1)
     violations, samples = [], []
     dist = collections.Counter()
     distinct = set()
